@@ -47,6 +47,32 @@ mod verif_witness {
         assert_eq!(run(&data[..10], 4, 10, Some("10")).await.unwrap().bytes.len(), 10);
         assert!(matches!(run(&data[..5], 4, 10, Some("11")).await, Err(ExtractBufferedBodyError::SizeLimitExceeded(_))));
     }
+    /// "byte-identical to what the client sent … whatever the Content-Length header claims": every combination of limit,
+    /// body length around it, frame size and Content-Length (absent, truthful, smaller, larger, zero, garbage, negative)
+    #[tokio::test]
+    async fn the_buffer_is_what_was_sent_or_a_size_error_whatever_content_length_claims() {
+        let mut n_cases = 0usize;
+        for limit in [0u64, 1, 7, 16] {
+            for len in [0usize, 1, 6, 7, 8, 15, 16, 17, 40] {
+                let data: Vec<u8> = (0..len).map(|i| (i * 7 + 3) as u8).collect();
+                let claims: Vec<Option<String>> = vec![None, Some(len.to_string()), Some("0".into()), Some(len.saturating_sub(1).to_string()), Some((len / 2).to_string()),
+                    Some((len + 1).to_string()), Some((limit + 1).to_string()), Some(limit.to_string()), Some("garbage".into()), Some("-1".into()), Some("18446744073709551616".into())];
+                for cl in &claims { for chunk in [1usize, 3, 64] {
+                    n_cases += 1;
+                    let case = format!("limit={limit} body={len} bytes in frames of {chunk}, content-length={cl:?}");
+                    match run(&data, chunk, limit, cl.as_deref()).await {
+                        Ok(b) => { assert!(len as u64 <= limit, "{case}: {} bytes were handed to the application", b.bytes.len()); assert_eq!(&b.bytes[..], &data[..], "{case}: not byte-identical to what the client sent"); }
+                        Err(ExtractBufferedBodyError::SizeLimitExceeded(_)) => {
+                            let declared_over = cl.as_deref().and_then(|c| c.parse::<usize>().ok()).is_some_and(|c| c as u64 > limit);
+                            assert!(len as u64 > limit || declared_over, "{case}: size error although neither the body nor the declared length exceeds the limit");
+                        }
+                        Err(e) => panic!("{case}: unexpected error {e:?}"),
+                    }
+                } }
+            }
+        }
+        println!("VERIF-BOUNDED test=the_buffer_is_what_was_sent_or_a_size_error_whatever_content_length_claims evaluations={n_cases} bound=limits {{0,1,7,16}} x body lengths {{0,1,6,7,8,15,16,17,40}} x 11 Content-Length claims x frame sizes {{1,3,64}}");
+    }
     #[test]
     fn the_default_limit_is_enabled() {
         match crate::request::body::BodySizeLimit::default() {
